@@ -146,6 +146,8 @@ def gen(rng, tier):
     # a quarter of the histories present some programs in explicitly curried form
     # ((f a) b): Function objects whose head is itself a Function
     for c in cases:
+        if rng.random() < 0.2:
+            c["decoy"] = 1
         if rng.random() < 0.25:
             ops = c["data"][2]
             c["curry"] = [k for k, o in enumerate(ops) if o[0] == 0 and rng.random() < 0.5]
@@ -238,6 +240,8 @@ def shrink(case):
     for c in _shrink(case):
         if "curry" in case and c["kind"] == "history":
             c["curry"] = list(range(len(c["data"][2])))
+        if "decoy" in case:
+            c["decoy"] = 1
         yield c
 
 
